@@ -34,7 +34,7 @@ INFO = {
 }
 
 PRE = """From Coq Require Import ZArith QArith List Bool.
-From MSDM Require Import model.GridWorld model.Domains.
+From MSDM Require Import model.GridWorld model.Domains theory.DomainsClosure.
 Import ListNotations.
 Local Open Scope Z_scope.
 Definition tcode (s : tside) : Z := match s with TL => 0 | TR => 1 end.
@@ -59,12 +59,14 @@ Definition windy_dump (w : windyp) (sl : list pos) :=
     map (fun s => (windy_is_absorbing w s,
                    map (fun a => map (fun nsp => (fst nsp, qz (snd nsp), qz (windy_reward w s a (fst nsp))))
                                      (windy_next w s a)) gm_actions)) sl,
-    map (fun sp => (fst sp, qz (snd sp))) (windy_init w) ).
+    map (fun sp => (fst sp, qz (snd sp))) (windy_init w),
+    windy_states w ).
 Definition cliff_dump (rows : layout) (sl : list pos) :=
   ( map (fun s => (cliff_is_absorbing rows s,
                    map (fun a => map (fun nsp => (fst nsp, qz (snd nsp), qz (cliff_reward rows s a)))
                                      (cliff_next rows s a)) gm_actions)) sl,
-    map (fun sp => (fst sp, qz (snd sp))) (cliff_init rows) ).
+    map (fun sp => (fst sp, qz (snd sp))) (cliff_init rows),
+    cliff_states rows ).
 """
 
 KINDNAME = {"gridworld": "gridworld", "windy": "windygridworld", "cliff": "cliffwalking", "tiger": "tiger",
@@ -1071,11 +1073,15 @@ def run(ctx):
                     viol(case, "closure-checker-rejects-non-absorbing", {"checker": "hh_closed_check g true"}, found=False)
             elif kind in ("windy", "cliff"):
                 if kind == "windy":
-                    call, cnon, rows, init = v
+                    call, cnon, rows, init, mstates = v
                 else:
-                    rows, init = v
+                    rows, init, mstates = v
                     cnon = True
                 diffs = grid_compare(res, rows, init, approx=bool(case.get("approx")))
+                # the executable closure the theorems windy_reach_closed / cliff_reach_closed are about
+                # (theory/DomainsClosure.v: windy_states / cliff_states) = msdm's reachability-derived state_list
+                if sorted(tup(x) for x in mstates) != sorted(tup(x) for x in res["state_list"]):
+                    diffs = sorted(set(diffs + ["state_list"]))
                 if diffs:
                     viol(case, "mirror-differs:" + "+".join(diffs), {"diffs": diffs}, found=False)
                 if not cnon:
